@@ -65,6 +65,7 @@ func init() {
 	register("C15", func(c *Ctx) {
 		p := c.P
 		c.Assume("AES-GCM itself, what a custom Transport does with the bytes, and log output are out of scope")
+		checkKeyHandling(c, "C15") // the send gates rest on the encryption-enabled predicate, the configured keyring object and whole keys
 		pkt, strm := c.rawSenders()
 		if pkt == nil || strm == nil {
 			fail("anchor unresolved: raw packet sender / raw stream sender")
